@@ -597,7 +597,7 @@ def run(chk) -> None:
     except (c03e.NotReadable, c03e.SX.TooManyPaths) as ex:
         chk.ok("reading", fi.where, f"find_stackings: fact-level reading not possible ({str(ex)[:120]}); pinned-form rules used")
         saved = set(chk.robust)
-        chk.robust -= {"stack-roles", "stack-skips", "stack-extra-filter", "stack-offset-vector", "stack-direction", "centroid-register", "model-filter"}
+        chk.robust -= {"stack-roles", "stack-skips", "stack-extra-filter", "stack-offset-vector", "stack-direction", "centroid-register", "model-filter", "stack-normals", "stack-offset", "stack-labels", "centroid-mean", "centroid-axes", "centroid-atoms", "same-residue-identity"}
         try:
             _pair_loop_pinned(chk, fi, fm, inl, fold, loop, c)
         finally:
